@@ -384,7 +384,16 @@ pub fn cases_c15(cfg: &Cfg) -> Vec<Case> {
                 }
                 let alias: &'static str = alias;
                 let tname: &'static str = tname;
-                let spec = SeqSpec { n, alpha: alpha.clone(), dist: dist.clone(), layout: Layout::Iid, seed: rng.u64() };
+                // the arrangement must not matter for the size: iid, sorted, long runs, blocks, rare first/last
+                let layout = match (pi + 2 * ai) % 6 {
+                    0 => Layout::Iid,
+                    1 => Layout::Sorted,
+                    2 => Layout::Blocks(3000),
+                    3 => Layout::RareFirst,
+                    4 => Layout::FreqAfterRare,
+                    _ => Layout::RareLast,
+                };
+                let spec = SeqSpec { n, alpha: alpha.clone(), dist: dist.clone(), layout, seed: rng.u64() };
                 let ty = format!("{}<{}>", alias, tname);
                 let class = format!("{}|{}", ty, spec.class());
                 let desc = J::obj().set("spec", spec.to_json());
